@@ -92,6 +92,32 @@ def _hk(x):
     return x if not isinstance(x, (np.integer,)) else int(x)
 
 
+
+def narrow_stream(c, algs, count):
+    """the same values as a numpy array of a NARROW integer type (int8 / uint8 / int16, every value fits, the sums do not) and as a plain
+    list: same multiset of sums (the statement of C07, judged on the implementation's own two answers; the list answer is tied to the model by
+    the other streams).  Library code that adds or multiplies the items' own scalars wraps around here and nowhere else."""
+    from engine import impl_map
+    kinds = {a: ALGS[a].kind for a in algs}
+    cases = C.narrow_cases(c.rng, algs, count, {a: ("partition" if k == "partition" else "pack" if k == "pack" else "cover") for a, k in kinds.items()})
+    tasks = [(case, fmt, "SortedSums", list(case["vals"])) for case in cases for fmt in ("list", "narrow")]
+    res = iter(impl_map(tasks))
+    for case in cases:
+        ref, got = next(res), next(res)
+        if _is_timeout(got) or _is_timeout(ref):
+            c.call_timeouts += 1
+            continue
+        if case["alg"] in ("dp", "ilp") and isinstance(got, list) and isinstance(ref, list):
+            ok = obj_value(case["p"]["obj"], got) == obj_value(case["p"]["obj"], ref)
+        else:
+            ok = got == ref
+        c.evaluations += 2; c.corr_cases += 1
+        c.stats["narrow-array"]["cases"] += 1
+        c.stats["narrow-array"]["alg:" + case["alg"]] += 1
+        kind = "format-dependence" if not J._is_err(got) else "exception:" + got["error"]
+        c.check_direct(case["alg"], dict(case["p"], vals=case["vals"], alg=case["alg"], fmt="narrow"), kind, ok, got,
+                       f"same multiset of sums as for list input: {ref}")
+
 # ------------------------------------------------------------------------------------------------ C03
 def C03(c):
     """bin-packing results are feasible packings of exactly the input items"""
@@ -121,6 +147,7 @@ def C03(c):
     for case in C.random_pack_cases(rng, C.PACKERS, c.n(30, 300)):
         fr.append(case)
     frac_corr(c, "fractions-fit", fr)
+    narrow_stream(c, C.PACKERS, c.n(25, 250))      # numpy arrays of 8- / 16-bit integers (fix F13 was found here)
     # "the reported number of bins equals the number of returned bins", on the implementation's own outputs of the same call
     for (_, fmt), d in seen_out.items():
         full, cnt = d.get(PT), d.get("BinCount")
@@ -152,6 +179,30 @@ def frac_corr(c, stream, cases_):
                                     "outtype": PT, "impl": got, "model": want, "request": "scaled by 2^-%d" % s})
 
 
+
+def frac_part_corr(c, stream, cases_):
+    """a partitioning algorithm on dyadic fractions: implementation on v/2^s vs the model on the integers v (sums and items scale back exactly);
+    justified by the scaling theorems of C18 (every decision compares sums).  A shortcut that is sound for integers only (parity of the total,
+    'a difference below 1 is 0') shows here."""
+    lines = [ALGS[k["alg"]].request(k, list(k["vals"])) for k in cases_]
+    answers = model_query(lines)
+    for case, ans in zip(cases_, answers):
+        s_ = c.rng.choice([1, 2, 2, 3, 8])
+        sc = 2.0 ** s_
+        vals = [v / sc for v in case["vals"]]
+        alg = ALGS[case["alg"]]
+        try:
+            r = prtpy.partition(algorithm=alg.fn(), numbins=case["p"]["k"], items=vals, outputtype=out.PartitionAndSumsTuple, **dict(alg.kwargs(case["p"])))
+            got = {"sums": [num(float(x) * sc) for x in r[0]], "bins": [[num(float(x) * sc) for x in b] for b in r[1]]}
+        except Exception as e:  # noqa
+            got = {"error": exc_name(e)}
+        c.evaluations += 1; c.corr_cases += 1
+        c.stats[stream]["cases"] += 1
+        want = ans if not (isinstance(ans, dict) and "sums" in ans) else {"sums": ans["sums"], "bins": ans["bins"]}
+        if got != want:
+            c.disagreements.append({"stream": stream, "alg": case["alg"], "case": case, "fmt": f"list/2^{s_}",
+                                    "outtype": PT, "impl": got, "model": want, "request": "scaled by 2^-%d" % s_})
+
 # ------------------------------------------------------------------------------------------------ C05
 def C05(c):
     """bin-covering results are valid covers that waste less than one bin"""
@@ -162,6 +213,7 @@ def C05(c):
     c.corr("exhaustive", ex, combos_of(["list"], [PT]), judge=J.judge_cover)
     c.exhaustive_scopes.append(f"all multisets of <= {c.n(4,5)} values from 1..B+2 (ascending and descending arrival), B in {c.n([6,7],[6,7,12])}")
     c.corr("random", C.random_cover_cases(rng, C.COVERS, c.n(300, 4000)), combos_of(formats, [PT]), judge=J.judge_cover)
+    narrow_stream(c, C.COVERS, c.n(25, 250))       # numpy arrays of 8- / 16-bit integers
 
 
 # ------------------------------------------------------------------------------------------------ C02
@@ -186,6 +238,11 @@ def C02(c):
     rnd = C.random_part_cases(rng, ["dp", "ckk", "snp", "rnp"], c.n(150, 1500), objs=C.OBJS5)
     rnd = [e for e in rnd if not (e["alg"] == "rnp" and e["p"]["k"] >= 6)]
     c.corr("random", rnd, combos, judge=judge)
+    # dp on 7-8 items with 8-bit values and 3-4 bins, every objective, through a sums-only and a contents-keeping output: prunes that are sound
+    # for one objective only (or for one manager only) lose the optimum on a few inputs in a thousand of this shape, on none of the smaller ones
+    wide = [{"alg": "dp", "vals": [rng.randint(1, 255) for _ in range(rng.randint(7, 8))], "p": {"k": rng.choice([3, 3, 4]), "obj": rng.choice(["diff", "diff", "diff"] + C.OBJS5)}}
+            for _ in range(c.n(1000, 8000))]
+    c.corr("dp-8-items-8-bit", wide, combos_of(["list"], ["Sums", PT]), judge=judge)
     c.corr("random-cg", C.random_part_cases(rng, ["cg"], c.n(600, 6000), objs=C.OBJS5), combos_of(["list"], [PT]), judge=judge)
     c.corr("random-ilp", C.random_part_cases(rng, ["ilp"], c.n(200, 2000), objs=C.OBJS5), combos_of(["list"], [PT]), judge=judge)
     # complete Karmarkar-Karp with 5 bins and small values: many coinciding partial sums (the combination enumerator's de-duplication matters)
@@ -591,7 +648,7 @@ def C07(c):
             kind = "format-dependence" if not J._is_err(got) else "exception:" + got["error"]
             c.check_direct(case["alg"], dict(case["p"], vals=case["vals"], alg=case["alg"], fmt=fmt), kind, ok, got,
                            f"same multiset of sums as for list input: {ref}")
-    # numpy arrays of an UNSIGNED integer type: the same values once more (known finding KF7 lives here: ilp; before fix F12 also dp with an
+    # numpy arrays of an UNSIGNED integer type: the same values once more (before fix F13 ilp failed here - then known finding KF7 -; before fix F12 also dp with an
     # objective that negates a sum; every other algorithm must agree with list input as usual)
     ucases = [e for e in cs if ALGS[e["alg"]].kind == "partition" and e["alg"] != "cbldm" and e["p"].get("cut") is None and e["vals"]][: c.n(150, 1500)]
     ucases += [{"alg": a, "vals": v, "p": {"k": 2, "obj": o}} for a in ("dp", "ilp") for v in ([38, 38], [12, 6, 6, 1, 17, 3]) for o in ("maxmin", "ksmall:1", "minmax", "diff")]
@@ -610,6 +667,10 @@ def C07(c):
         kind = "format-dependence" if not J._is_err(got) else "exception:" + got["error"]
         c.check_direct(case["alg"], dict(case["p"], vals=case["vals"], alg=case["alg"], fmt="uarray"), kind, ok, got,
                        f"same multiset of sums as for list input: {ref}")
+    # numpy arrays of a NARROW integer type, every algorithm (before fix F13 multifit, dp, cg, snp, rnp and bin_completion added the items' own
+    # scalars and wrapped around, and ilp failed on the unsigned ones)
+    narrow_stream(c, ["greedy", "roundrobin", "multifit", "kk", "ckk", "cg", "snp", "rnp", "dp", "ilp", "cbldm"] + C.PACKERS + ["bin_completion"] + C.COVERS,
+                  c.n(6, 60))
     # ... and the same through the full output (the contents-keeping manager): the sums of the returned bins in every format
     for d in full_sums.values():
         case, ref = d["case"], d.get("list")
@@ -804,6 +865,7 @@ def C10(c):
     c.exhaustive_scopes.append(f"all multisets of <= {c.n(5,6)} values from 1..B+2, B in {c.n([6],[6,12])}")
     c.corr("random", C.random_cover_cases(rng, C.COVERS, c.n(300, 3000), nmax=c.n(11, 13)), combos_of(["list"], [PT]), judge=judge)
     c.corr("random-named", C.random_cover_cases(rng, C.COVERS, c.n(150, 450), nmax=c.n(11, 13)), combos_of(["dict_str", "array_valueof", "array", "uarray"], [PT]), judge=judge_named(judge))
+    narrow_stream(c, C.COVERS, c.n(25, 250))       # numpy arrays of 8- / 16-bit integers
     planted = []
     for _ in range(c.n(100, 1000)):
         B = rng.choice([12, 20, 100, 1000])
@@ -866,6 +928,8 @@ def C12(c):
     tight = [mk([rng.choice([0, rng.randint(1, 30), rng.randint(1, 30), rng.randint(1, 9)]) for _ in range(rng.randint(7, 9))], rng.choice([1, 1, 2]))
              for _ in range(c.n(4000, 30000))]
     c.corr("binding-bound-7-9-items", tight, combos_of(["list"], [PT]), judge=judge)
+    # item values that are not integers (exactly representable fractions): the search must not rely on integrality
+    frac_part_corr(c, "cbldm-fractions", [mk([rng.randint(0, 40) for _ in range(rng.randint(2, 9))], rng.choice([1, 2, None, None])) for _ in range(c.n(300, 3000))])
 
 
 # ------------------------------------------------------------------------------------------------ C20
@@ -1344,6 +1408,9 @@ def C11(c):
     nl = [{"alg": "cbldm", "vals": list(ms), "p": {"k": 2, "d": d, "cut": None}}
           for ms in gen.multisets(range(1, c.n(8, 9)), c.n(5, 6), min_len=3) for d in (1, 2)]
     c.corr("cbldm-no-limit-optimal", nl, combos_of(["list"], [PT]), judge=judge_cb)
+    # ... and on item values that are not integers (exactly representable fractions): an early stop that is a lower bound for integers only
+    frac_part_corr(c, "cbldm-fractions", [{"alg": "cbldm", "vals": [rng.randint(0, 40) for _ in range(rng.randint(2, 9))], "p": {"k": 2, "d": rng.choice([1, 2, None, None]), "cut": None}}
+                                          for _ in range(c.n(300, 3000))])
     c.exhaustive_scopes.append(f"cbldm without limit: all multisets of 3..{c.n(5,6)} values from 1..{c.n(7,8)} x d in (1,2), certified against the verified balanced oracle")
     for grp in cb_groups:
         prev = None
@@ -1679,6 +1746,7 @@ def C14(c):
     named = C.random_part_cases(rng, part, c.n(60, 600), nmax=12) + C.random_pack_cases(rng, C.PACKERS, c.n(60, 600)) + C.random_cover_cases(rng, C.COVERS, c.n(60, 600))
     c.corr("random-named", named, combos_of(["dict_str", "array_valueof", "array", "uarray"], [PT]), judge=judge_named(judge))
     c.corr("random-part", C.random_part_cases(rng, part, c.n(300, 4000), nmax=30), combos_of(["list"], [PT]), judge=judge)
+    narrow_stream(c, ["greedy", "roundrobin"] + C.PACKERS + C.COVERS, c.n(15, 150))     # numpy arrays of 8- / 16-bit integers
     c.corr("random-pack", C.random_pack_cases(rng, C.PACKERS, c.n(300, 4000), nmax=c.n(20, 40)), combos_of(["list"], [PT]), judge=judge)
     c.corr("random-cover", C.random_cover_cases(rng, C.COVERS, c.n(400, 5000), nmax=c.n(20, 40)), combos_of(["list"], [PT]), judge=judge)
 
@@ -1844,10 +1912,12 @@ def C17(c):
                     wo = [float(_frac(x)) for x in rm["objective"]]
                     if any(not close(model["objective"].get(j, 0.0), wo[j]) for j in range(n * k)) or not close(model["obj_const"], 0.0):
                         okf = False
-                if model["params"] != cap.default_params():
-                    # the model assumes the solver is asked for a proven optimum: tolerances / limits must be the solver's defaults
+                want_params = dict(cap.default_params(), preprocess="0")
+                if model["params"] != want_params:
+                    # the model assumes the solver is asked for a proven optimum: tolerances / limits must be the solver's defaults, and CBC's
+                    # preprocessing must be off (fix F14: with it CBC returns wrong "optimal" answers on general-integer models)
                     c.disagreements.append({"stream": "ilp-solver-parameters", "alg": "ilp", "case": {"vals": sp["vals"], "p": label}, "fmt": "dict_str", "outtype": PT,
-                                            "impl": model["params"], "model": cap.default_params(), "request": "solver parameters for ilp_rows " + line})
+                                            "impl": model["params"], "model": want_params, "request": "solver parameters for ilp_rows " + line})
                 if not okf:
                     c.disagreements.append({"stream": "ilp-formulation", "alg": "ilp", "case": {"vals": sp["vals"], "p": label}, "fmt": "dict_str", "outtype": PT,
                                             "impl": {"rows": [[r_[0], r_[1], r_[2]] for r_ in model["rows"]], "objective": model["objective"]},
@@ -1911,22 +1981,8 @@ def C17(c):
                 elif got["sums"] != [sum((x if sp["fmt"] == "list" else sp["vals"][names.index(x)]) for x in b) for b in got["bins"]]:
                     verdict = ("inconsistent-sums", "reported sums differ from the bins")
             c.stats["certified"]["evaluations"] += 1
-            if verdict and verdict[0] not in ("exception:TypeError",):
-                # tell a solver fault apart: the identical model re-solved with preprocessing off
-                cap2 = MipCapture()
-                with cap2:
-                    cap2.preprocess_off = True
-                    got2, _ = ilp_call(sp, cap2, names)
-                fine = False
-                if infeasible:
-                    fine = J._is_err(got2) and got2["error"] == "ValueError"
-                elif not J._is_err(got2) and len(got2["bins"]) == sp["k"]:
-                    pa2 = model_query([f"ilp_point {line} counts={point_of(sp, got2, names)}"])[0]
-                    fine = pa2["feasible"] and _frac(pa2["docvalue"]) == _frac(om)
-                if fine:
-                    c.solver_faults += 1
-                    c.notes.append(f"solver fault (CBC preprocessing): {line} -> {got}; correct with preprocess=0")
-                    verdict = None
+            # (no allowance for solver faults any more: since fix F14 the library itself runs CBC without its faulty preprocessing, and a wrong
+            #  answer - infeasible, or not the optimum of the formulation - is a failure of the property whatever component produced it)
             if verdict:
                 c.fail("ilp", {"alg": "ilp", "vals": sp["vals"], "p": label}, "list" if sp["fmt"] == "list" else "dict_str", PT, verdict[0], got, verdict[1])
         # (3) equal weights never change the result (optimal objective value of the raw sums)
@@ -1940,13 +1996,6 @@ def C17(c):
             def good(g):
                 return (not J._is_err(g)) and want is not None and obj_value(sp["obj"], g["sums"]) == want and g["sums"] == sorted(g["sums"])
             ok = good(got2)
-            if not ok and want is not None:
-                with MipCapture() as cap3:      # solver fault?
-                    cap3.preprocess_off = True
-                    got3, _ = ilp_call(sp2, cap3, names)
-                if good(got3):
-                    c.solver_faults += 1
-                    ok = True
             if want is None:
                 ok = J._is_err(got2) and got2["error"] == "ValueError"
             c.check_direct("ilp", dict(label, weights_arg=[w] * sp["k"]), "equal-weights-change-result", ok, got2,
@@ -1961,7 +2010,7 @@ def C17(c):
                                f"ValueError when the solver's status is {st} (optimality not proved)")
         capf.force_status = None
     c.assumptions.append("CBC / python-mip returns an optimal feasible point of the model it is given or a non-OPTIMAL status; certified per run against the "
-                         "brute-force optimum of the Lean formulation; a wrong OPTIMAL answer that becomes right with preprocess=0 is counted as solver_fault")
+                         "brute-force optimum of the Lean formulation (no allowance: a wrong OPTIMAL answer is a failure; before fix F14 CBC's preprocessing produced them on 1-2 % of the calls with copies other than 1)")
 
 
 # ------------------------------------------------------------------------------------------------ C19
@@ -2383,6 +2432,41 @@ def C15(c):
                     c.disagreements.append({"stream": "histories", "alg": e["alg"], "case": e, "fmt": fmt, "outtype": ot, "impl": got, "model": want,
                                             "request": lines[k_] + f"  (history {hno}, step {step})"})
         c.sample({"history": hno, "length": len(seq), "first_calls": [f"{calls[q][0]['alg']}/{calls[q][1]}/{calls[q][2]}" for q in seq[:8]]})
+    # the same hard bin-completion call three times in a row in this interpreter (state that survives a search and is CHANGED by it - a cached
+    # list of completions consumed with pop - makes the second or third identical call differ from the first)
+    hard_calls = [(e, fmt, ot, names) for (e, fmt, ot, names) in calls if e["alg"] == "bin_completion" and fmt in ("list", "array") and len(e["vals"]) >= 5][: c.n(150, 600)]
+    from engine import timed
+    for e, fmt, ot, names in hard_calls:
+        outs = [timed(lambda: ALGS[e["alg"]].call_impl(e, fmt, ot, names)) for _ in range(3)]
+        c.evaluations += 3; c.corr_cases += 1
+        c.stats["repeated-bin-completion"]["triples"] += 1
+        if any(isinstance(o, dict) and o.get("error") == "Timeout" for o in outs):
+            c.call_timeouts += 1
+            continue
+        label = dict(e["p"], vals=e["vals"], alg=e["alg"], fmt=fmt, outtype=ot, repeated=3)
+        c.check_direct(e["alg"], label, "not-repeatable", outs[0] == outs[1] == outs[2], outs, "three identical answers to three identical calls")
+    # ilp after an ilp call that FAILED (unsatisfiable caller constraints; a time limit that expires at once): the next call must not inherit anything
+    ilp_cases = [e for e in pool_cases if e["alg"] == "ilp" and len(e["vals"]) >= 2][: c.n(12, 60)]
+    for e in ilp_cases:
+        alg = ALGS["ilp"]
+        kw = dict(alg.kwargs(e["p"]))
+        tot = sum(e["vals"])
+
+        def run(**extra):
+            try:
+                return canon_impl(prtpy.partition(algorithm=alg.fn(), numbins=e["p"]["k"], items=list(e["vals"]), outputtype=out.Sums, **dict(kw, **extra)), "Sums")
+            except Exception as ex:      # noqa
+                return {"error": exc_name(ex)}
+        before = run()
+        failed = run(additional_constraints=lambda sums, tot=tot: [sums[0] >= tot + 1])
+        after = run()
+        c.evaluations += 3; c.corr_cases += 1
+        c.stats["ilp-after-failure"]["triples"] += 1
+        label = dict(e["p"], vals=e["vals"], alg="ilp", fmt="list", outtype="Sums", history="ilp ok, ilp with unsatisfiable additional_constraints, the first call again")
+        c.check_direct("ilp", label, "failed-call-not-refused", failed == {"error": "ValueError"}, failed, "ValueError for constraints no partition satisfies")
+        same = (J._is_err(before) and before == after) or (not J._is_err(before) and not J._is_err(after) and
+                                                          obj_value(e["p"]["obj"], after) == obj_value(e["p"]["obj"], before))
+        c.check_direct("ilp", label, "history-dependent", same, after, f"the answer given before the failed call: {before}")
     # the caller re-uses ITS OWN dict / value function object and changes a value between two calls: the second call must see the new value
     # (state kept inside the library and keyed on the caller's object would answer with the stale one)
     shared = [e for e in pool_cases if e["alg"] in ("greedy", "roundrobin", "multifit", "kk", "ff", "ffd", "bf", "bfd", "cover_decreasing", "twothirds",
@@ -2411,6 +2495,10 @@ def C15(c):
             except Exception as ex:      # noqa
                 return {"error": exc_name(ex)}
         r1 = call(d, False)
+        if rng.random() < 0.5:       # the same names, the values dealt out afresh (an order of the NAMES remembered from the first call is now wrong)
+            vs = list(d.values()); rng.shuffle(vs)
+            for nm, v in zip(list(d), vs):
+                d[nm] = v
         j = rng.randrange(len(names))
         newv = rng.choice([0, 1, d[names[j]] + 1, max(1, d[names[j]] // 2), min(e["p"].get("B", 10 ** 9), d[names[j]] + 3)])
         d[names[j]] = newv if newv <= e["p"].get("B", 10 ** 12) else d[names[j]]
@@ -2447,7 +2535,7 @@ def replay(c, rp):
     case = rp.get("case") or {}
     if case.get("alg") in ALGS and "vals" in case and set(ALGS[case["alg"]].param) <= set("kB") and ALGS[case["alg"]].param in case.get("p", {}):
         fmt, ot = rp.get("fmt", "list"), rp.get("outtype", PT)
-        fmt = fmt if fmt in FORMATS + ["uarray"] else "list"
+        fmt = fmt if fmt in FORMATS + ["uarray", "narrow"] else "list"
         ot = ot if ot in OUTTYPES else PT
         kind_ = ALGS[case["alg"]].kind
 
